@@ -41,21 +41,42 @@ def same_bits(a, b):
 
 def search_report(seed, n):
     ev = 0
+    warnings.simplefilter("ignore")  # overflow / invalid-value RuntimeWarnings of the deliberately non-finite scenarios
     for k in range(n):
         rng = Rng(seed, "c12search|%d" % k)
         g, desc = G.make_graph(rng, noise=rng.choice([0.02, 0.3, 1.5]), well_posed=True, fix=rng.choice(["first", "random"]))
         tol = rng.choice([0.0, 1e-10, 1e-6, 1e-3, 1e-1])
         mi = rng.randrange(1, 9)
         ffp = rng.random() < 0.5
+        # runs that pass through a non-finite chi2 are runs too (the property quantifies over diverging runs):
+        #   overflow  - information ~1e300: the first chi2 is inf while H and b stay finite, so the run recovers
+        #   singular  - no vertex fixed: the solver returns NaN, every later chi2 is NaN
+        #   tiny      - information ~1e-9..1e-12: chi2 far below tol (the test is *relative*)
+        scenario = rng.choice(["plain", "plain", "plain", "overflow", "singular", "tiny"])
+        if scenario == "overflow":
+            for e in desc["edges"]:
+                e["info"] = (np.asarray(e["info"], dtype=np.float64) * 1e300).tolist()
+            for v in desc["vertices"]:
+                if not v.get("fixed") and v["cls"] in ("PoseR2", "PoseR3", "PoseSE2"):
+                    v["vals"] = [x + (40.0 if i < 2 else 0.0) for i, x in enumerate(v["vals"])]
+        elif scenario == "singular":
+            for v in desc["vertices"]:
+                v["fixed"] = False
+            ffp = False
+        elif scenario == "tiny":
+            sc = 10 ** rng.uniform(-12, -7)
+            for e in desc["edges"]:
+                e["info"] = (np.asarray(e["info"], dtype=np.float64) * sc).tolist()
+        if scenario != "plain":
+            g = G.rebuild(desc)
+        same = lambda a, b: a == b or (isinstance(a, float) and isinstance(b, float) and math.isnan(a) and math.isnan(b))
         chi0 = float(G.rebuild(desc).calc_chi2())
         r = quiet_optimize(g, tol=tol, max_iter=mi, fix_first_pose=ffp)
         ev += 1
-        w = lambda what, **kw: dict(kind="report", what=what, match="report:" + what, tol=tol, max_iter=mi, fix_first_pose=ffp, desc=desc, **kw)
-        if not all(math.isfinite(x) for x in [r.initial_chi2, r.final_chi2]):
-            continue
-        if float(r.initial_chi2) != chi0:
+        w = lambda what, **kw: dict(kind="report", what=what, match="report:" + what, tol=tol, max_iter=mi, fix_first_pose=ffp, scenario=scenario, desc=desc, **kw)
+        if not same(float(r.initial_chi2), chi0):
             return w("initial_chi2", reported=float(r.initial_chi2), actual=chi0), ev
-        if float(r.final_chi2) != float(g.calc_chi2()):
+        if not same(float(r.final_chi2), float(g.calc_chi2())):
             return w("final_chi2", reported=float(r.final_chi2), actual=float(g.calc_chi2())), ev
         # chi2 of the state after j updates, from independent shorter runs
         n_it = r.num_iterations
@@ -64,11 +85,13 @@ def search_report(seed, n):
             gj = G.rebuild(desc)
             quiet_optimize(gj, tol=0.0, max_iter=j, fix_first_pose=ffp)
             chis.append(float(gj.calc_chi2()))
+        if len(r.iteration_results) < n_it:
+            return w("len_iteration_results", reported=len(r.iteration_results), num_iterations=n_it), ev
         for j in range(n_it):
             it = r.iteration_results[j]
-            if it.chi2 is None or float(it.chi2) != chis[j + 1]:
+            if it.chi2 is None or not same(float(it.chi2), chis[j + 1]):
                 return w("iteration_chi2", iteration=j, reported=None if it.chi2 is None else float(it.chi2), actual=chis[j + 1]), ev
-        if float(r.final_chi2) != chis[n_it]:
+        if not same(float(r.final_chi2), chis[n_it]):
             return w("final_is_state_chi2", reported=float(r.final_chi2), actual=chis[n_it]), ev
 
         def stop(i):
@@ -91,7 +114,7 @@ def search_report(seed, n):
         # verbose does not alter results
         g2 = G.rebuild(desc)
         r2 = quiet_optimize(g2, tol=tol, max_iter=mi, fix_first_pose=ffp, verbose=True)
-        if not same_bits(poses(g), poses(g2)) or r2.num_iterations != r.num_iterations or float(r2.final_chi2) != float(r.final_chi2):
+        if not same_bits(poses(g), poses(g2)) or r2.num_iterations != r.num_iterations or not same(float(r2.final_chi2), float(r.final_chi2)):
             return w("verbose_changes_result"), ev
         # split run (tol = 0): k1 then k2 iterations == k1 + k2 iterations
         k1 = rng.randrange(1, 4)
@@ -128,7 +151,9 @@ def dense_normal_equations(g):
 
 
 def search_step(seed, n):
-    """one iteration == Gauss-Newton step on the free vertices; fixed vertices unchanged"""
+    """one iteration == Gauss-Newton step on the free vertices; fixed vertices unchanged.  Each graph is stepped up to
+    three times *on the same Graph object*, the caller changing the fixed flags in between (vertices that were free become
+    fixed and vice versa): every call is the Gauss-Newton step of the problem as it stands at that call."""
     ev = 0
     skipped = 0
     for k in range(n):
@@ -137,39 +162,53 @@ def search_step(seed, n):
         ffp = rng.random() < 0.5
         if ffp:
             g._vertices[0].fixed = True
-        # edges naming the same vertex twice are outside C03's quantifier
-        H, b = dense_normal_equations(g)
-        free = np.concatenate([np.arange(v.gradient_index, v.gradient_index + v.pose.COMPACT_DIMENSIONALITY) for v in g._vertices if not v.fixed] or [np.array([], dtype=int)]).astype(int)
-        before = [(v, np.array(v.pose)) for v in g._vertices]
-        try:
-            quiet_optimize(g, tol=0.0, max_iter=1, fix_first_pose=False)
-        except Exception as ex:  # noqa
-            return dict(kind="step", what="optimize raised %s: %s" % (type(ex).__name__, ex), match="optimize-raised", desc=desc), ev, skipped
-        ev += 1
-        for v, p0 in before:
-            if v.fixed and np.array(v.pose).tobytes() != p0.tobytes():
-                return dict(kind="step", what="fixed vertex moved", match="fixed-vertex-moved", vertex=v.id, desc=desc), ev, skipped
-        if len(free) == 0:
-            continue
-        Hf, bf = H[np.ix_(free, free)], b[free]
-        cond = np.linalg.cond(Hf)
-        if not cond < 1e9:
-            skipped += 1
-            continue
-        dxf = -np.linalg.solve(Hf, bf)
-        dx = np.zeros(len(b))
-        dx[free] = dxf
-        for v, p0 in before:
-            if v.fixed:
-                continue
-            c = v.pose.COMPACT_DIMENSIONALITY
-            exp = np.asarray(G.mk_pose(type(v.pose).__name__, p0) + dx[v.gradient_index : v.gradient_index + c])
-            got = np.asarray(v.pose)
-            d = got - exp
-            if type(v.pose).__name__ == "PoseSE2":
-                d[2] = math.remainder(d[2], 2 * math.pi)
-            if not np.max(np.abs(d)) <= 1e-7 * max(1.0, cond * 1e-5) * (1 + np.max(np.abs(exp))):
-                return dict(kind="step", what="pose after one iteration is not the Gauss-Newton step", match="gn-step", vertex=v.id, expected=exp.tolist(), got=got.tolist(), cond=float(cond), desc=desc), ev, skipped
+        for rnd in range(rng.choice([1, 2, 3])):
+            if rnd > 0:
+                # the caller edits the flags between two calls: mostly growing the fixed set, sometimes releasing vertices
+                # (one originally fixed vertex per connected component stays fixed, so the problem stays well posed)
+                keep = [v for v in g._vertices if v.fixed]
+                for v in g._vertices:
+                    if not v.fixed and rng.random() < 0.35:
+                        v.fixed = True
+                    elif v.fixed and rng.random() < 0.15 and len(keep) > 1 and desc["world"] != "mixed":
+                        v.fixed = False
+                        keep.remove(v)
+            w = dict(call=rnd + 1, fixed=[v.id for v in g._vertices if v.fixed])
+            # edges naming the same vertex twice are outside C03's quantifier
+            H, b = dense_normal_equations(g)
+            free = np.concatenate([np.arange(v.gradient_index, v.gradient_index + v.pose.COMPACT_DIMENSIONALITY) for v in g._vertices if not v.fixed] or [np.array([], dtype=int)]).astype(int)
+            before = [(v, np.array(v.pose)) for v in g._vertices]
+            try:
+                quiet_optimize(g, tol=0.0, max_iter=1, fix_first_pose=False)
+            except Exception as ex:  # noqa
+                return dict(kind="step", what="optimize raised %s: %s" % (type(ex).__name__, ex), match="optimize-raised", desc=desc, **w), ev, skipped
+            ev += 1
+            for v, p0 in before:
+                if v.fixed and np.array(v.pose).tobytes() != p0.tobytes():
+                    return dict(kind="step", what="fixed vertex moved", match="fixed-vertex-moved", vertex=v.id, desc=desc, **w), ev, skipped
+            if len(free) == 0:
+                break
+            Hf, bf = H[np.ix_(free, free)], b[free]
+            cond = np.linalg.cond(Hf)
+            if not cond < 1e9:
+                skipped += 1
+                break
+            dxf = -np.linalg.solve(Hf, bf)
+            dx = np.zeros(len(b))
+            dx[free] = dxf
+            for v, p0 in before:
+                if v.fixed:
+                    continue
+                c = v.pose.COMPACT_DIMENSIONALITY
+                exp = np.asarray(G.mk_pose(type(v.pose).__name__, p0) + dx[v.gradient_index : v.gradient_index + c])
+                got = np.asarray(v.pose)
+                d = got - exp
+                if type(v.pose).__name__ == "PoseSE2":
+                    d[2] = math.remainder(d[2], 2 * math.pi)
+                if not np.max(np.abs(d)) <= 1e-7 * max(1.0, cond * 1e-5) * (1 + np.max(np.abs(exp))):
+                    return dict(kind="step", what="pose after one iteration is not the Gauss-Newton step (call %d on this Graph object)" % (rnd + 1), match="gn-step", vertex=v.id, expected=exp.tolist(), got=got.tolist(), cond=float(cond), desc=desc, **w), ev, skipped
+            if not all(np.all(np.isfinite(np.asarray(v.pose))) for v in g._vertices):
+                break
     return None, ev, skipped
 
 
@@ -311,6 +350,17 @@ def search_numjac(seed, n):
                     return dict(kind="numjac", what=w, match="numjac-contribs", edge=desc["edges"][ei], reversed=pe is not e, desc=desc), ev, worst
             if type(e).__name__ == "DistanceEdge":
                 continue  # no analytic twin on this object (its twin class is checked through the graph twin below)
+            if k % 3 == 1:
+                # a measurement that is met *exactly* at the current estimates (error == 0.0): the error's Jacobian is not zero there
+                try:
+                    if type(e).__name__ == "DistanceEdgeAnalytic":
+                        e.estimate = 0.0
+                        e.estimate = float(np.asarray(e.calc_error())[0])
+                        assert float(np.asarray(e.calc_error())[0]) == 0.0
+                    elif type(e).__name__ == "EdgeOdometry" and type(e.vertices[0].pose).__name__ in ("PoseR2", "PoseR3"):
+                        e.estimate = e.vertices[1].pose - e.vertices[0].pose
+                except Exception:
+                    pass
             Jn = BaseEdge.calc_jacobians(e)
             Ja = e.calc_jacobians()
             ev += 1
@@ -357,6 +407,30 @@ def search_linear(seed, n):
             if not v["fixed"]:
                 v["vals"] = [x + rng.gauss(0, scale) for x in v["vals"]]
         g = G.rebuild(desc)
+        # how the caller built the objects must not matter (the initial guess is arbitrary for linear graphs):
+        build = rng.choice(["plain", "plain", "shared-origin", "view-of-measurement", "reused-edges"])
+        if build == "shared-origin":
+            # every vertex starts from one `origin` pose object (Vertex keeps the caller's object)
+            origin = g._vertices[0].pose
+            for v in g._vertices:
+                v.pose = origin
+        elif build == "view-of-measurement":
+            # dead-reckoning initialisation: a vertex estimate and an edge measurement are views of one buffer
+            cand = [e for e in g._edges if type(e).__name__ == "EdgeOdometry" and not e.vertices[1].fixed]
+            if cand:
+                e0 = rng.choice(cand)
+                buf = np.array(np.asarray(e0.estimate), dtype=np.float64)
+                e0.estimate = type(e0.estimate)(buf)
+                e0.vertices[1].pose = type(e0.estimate)(buf)
+        elif build == "reused-edges":
+            # the same edge objects were used for an earlier Graph over other Vertex objects (and solved there)
+            quiet_optimize(g, tol=1e-9, max_iter=3, fix_first_pose=False)
+            from graphslam.graph import Graph as _Graph
+            from graphslam.vertex import Vertex as _Vertex
+
+            vs = [_Vertex(v["id"], G.mk_pose(v["cls"], [x + (0.0 if v["fixed"] else rng.gauss(0, 50.0)) for x in v["vals"]]), fixed=bool(v["fixed"])) for v in desc["vertices"]]
+            rng.shuffle(vs)
+            g = _Graph(list(g._edges), vs)
         dim = 2 if world == "r2" else 3
         idx = {v.id: i for i, v in enumerate(g._vertices)}
         nV = len(g._vertices)
@@ -399,7 +473,7 @@ def search_linear(seed, n):
         chi_min = float(np.sum((A @ x - y) ** 2))
         got = np.concatenate([np.asarray(v.pose) for v in g._vertices])
         sc = 1 + np.max(np.abs(x))
-        w = lambda what, **kw: dict(kind="linear", what=what, match="linear:" + what, initial_scale=scale, desc=desc, **kw)
+        w = lambda what, **kw: dict(kind="linear", what=what, match="linear:" + what, initial_scale=scale, build=build, desc=desc, **kw)
         if not np.max(np.abs(got - x)) <= 1e-6 * sc * max(1.0, scale * 1e-6):
             return w("optimum", expected=x.tolist(), got=got.tolist()), ev, skipped
         if not abs(float(r.final_chi2) - chi_min) <= 1e-6 * (1 + chi_min) * max(1.0, scale * 1e-3):
@@ -464,32 +538,53 @@ def search_convergence(seed, n):
             desc["shared_pose_object"] = list(shared)
             stats["shared_pose_object"] = stats.get("shared_pose_object", 0) + 1
         tol = 10 ** rng.uniform(-10, -4)
-        chi0 = float(g.calc_chi2())
-        r = quiet_optimize(g, tol=tol, max_iter=100, fix_first_pose=True)
-        ev += 1
-        w = lambda what, **kw: dict(kind="convergence", what=what, match="convergence:" + what, world=world, tol=tol, noise_free=noise_free, desc=desc, **kw)
-        if not math.isfinite(float(r.final_chi2)):
-            return w("non-finite final chi2"), ev, stats
-        if not float(r.final_chi2) <= chi0 * (1 + 1e-9) + 1e-12:
-            return w("final chi2 exceeds initial chi2", initial=chi0, final=float(r.final_chi2)), ev, stats
-        if not r.converged:
-            return w("did not converge within 100 iterations", num_iterations=r.num_iterations), ev, stats
-        lam2, cond = newton_decrement(g)
-        if lam2 is None:
-            stats["skipped_ill_conditioned"] += 1
-            continue
-        bound = 20 * tol * max(float(r.final_chi2), 1e-12) + 1e-10
-        stats["worst_decrement_ratio"] = max(stats["worst_decrement_ratio"], lam2 / bound)
-        if not lam2 <= bound:
-            return w("Newton decrement above the tolerance scale", decrement=lam2, bound=bound, final_chi2=float(r.final_chi2)), ev, stats
-        if noise_free:
-            stats["noise_free"] += 1
-            # relative poses of the ground truth are reproduced (the anchor is the first vertex, possibly perturbed: compare edges)
-            if not float(r.final_chi2) <= 1e-10:
-                return w("noise-free measurements not reproduced: chi2 > 0", final_chi2=float(r.final_chi2)), ev, stats
-            for e in g._edges:
-                if np.max(np.abs(np.asarray(e.calc_error()))) > 1e-6:
-                    return w("noise-free relative pose not reproduced", error=np.asarray(e.calc_error()).tolist()), ev, stats
-        else:
-            stats["noisy"] += 1
+        second_call = rng.random() < 0.3
+        for call in ((1, 2) if second_call else (1,)):
+            if call == 2:
+                # the same Graph object is optimised again after the caller fixed one more (converged) pose and disturbed the
+                # others by half the calibrated neighbourhood: the second run is judged exactly like the first
+                cand = [v for v in g._vertices[1:] if type(v.pose).__name__.startswith("PoseSE") and not v.fixed]
+                if not cand:
+                    break
+                rng.choice(cand).fixed = True
+                for v in g._vertices:
+                    if not v.fixed:
+                        v.pose = v.pose + np.array([rng.gauss(0, cal["init"] * 0.5) for _ in range(v.pose.COMPACT_DIMENSIONALITY)])
+                stats["second_calls"] = stats.get("second_calls", 0) + 1
+            wit, lam_ratio = _judge_convergence(g, desc, world, tol, noise_free, call, stats)
+            ev += 1
+            if wit:
+                return wit, ev, stats
     return None, ev, stats
+
+
+def _judge_convergence(g, desc, world, tol, noise_free, call, stats):
+    chi0 = float(g.calc_chi2())
+    r = quiet_optimize(g, tol=tol, max_iter=100, fix_first_pose=True)
+    ev = 0
+    w = lambda what, **kw: (dict(kind="convergence", what=what, match="convergence:" + what, world=world, tol=tol, noise_free=noise_free, call=call, fixed=[v.id for v in g._vertices if v.fixed], desc=desc, **kw), ev, stats)
+    if not math.isfinite(float(r.final_chi2)):
+        return w("non-finite final chi2")[0], 0.0
+    if not float(r.final_chi2) <= chi0 * (1 + 1e-9) + 1e-12:
+        return w("final chi2 exceeds initial chi2", initial=chi0, final=float(r.final_chi2))[0], 0.0
+    if not r.converged:
+        return w("did not converge within 100 iterations", num_iterations=r.num_iterations)[0], 0.0
+    lam2, cond = newton_decrement(g)
+    if lam2 is None:
+        stats["skipped_ill_conditioned"] += 1
+        return None, 0.0
+    bound = 20 * tol * max(float(r.final_chi2), 1e-12) + 1e-10
+    stats["worst_decrement_ratio"] = max(stats["worst_decrement_ratio"], lam2 / bound)
+    if not lam2 <= bound:
+        return w("Newton decrement above the tolerance scale", decrement=lam2, bound=bound, final_chi2=float(r.final_chi2))[0], 0.0
+    if noise_free:
+        stats["noise_free"] += 1
+        # relative poses of the ground truth are reproduced (the anchor is the first vertex, possibly perturbed: compare edges)
+        if not float(r.final_chi2) <= 1e-10:
+            return w("noise-free measurements not reproduced: chi2 > 0", final_chi2=float(r.final_chi2))[0], 0.0
+        for e in g._edges:
+            if np.max(np.abs(np.asarray(e.calc_error()))) > 1e-6:
+                return w("noise-free relative pose not reproduced", error=np.asarray(e.calc_error()).tolist())[0], 0.0
+    else:
+        stats["noisy"] += 1
+    return None, 0.0
